@@ -31,7 +31,7 @@ PickT32 == sc.stage = 0 /\ \E a \in 0..4095, b \in 0..15, f \in Fill, md \in MOD
 Next == PickARM \/ PickT16 \/ PickT32
 Spec == Init /\ [][Next]_vars
 Done == sc.stage = 1
-Kinds == Executable \cup {"undef", "unspec", "unpred"}
+Kinds == Executable \cup {"undef", "unspec", "unpred", "unimpl", "nopish"}
 DX == [it |-> sc.it, arch |-> 7, hyp |-> FALSE]
 I == Decode(sc.iset, sc.w, sc.len, DX)
 S0 == [R |-> [r \in RNames |-> IF r = "PC" THEN <<0, 64>> ELSE <<0, 96>>], cpsr |-> <<(IF sc.iset = 1 THEN (sc.it % 4) * 512 ELSE 0), (IF sc.iset = 1 THEN 32 + (sc.it \div 4) * 1024 ELSE 0) + sc.md>>,
